@@ -26,12 +26,14 @@ type Spec struct {
 	AMin  *uint64
 	AMax  *uint64
 	AUniq *bool
+	ASF   *string // array ext.singleForm
 
 	R bool // rules message of the (item) type present
 
 	Fmt        string // int: i32 i64 u32 u64
 	Min, Max   *int64
-	EMin, EMax *bool
+	EMin, EMax *bool   // also the exclusive flags of date / decimal rules
+	DMin, DMax *string // date / decimal bounds (text)
 
 	MinL, MaxL *uint64 // str, bytes
 	Pat        *string // str rules.pattern, key custom pattern
@@ -202,12 +204,15 @@ func (s *Spec) Encode() string {
 		"amin=" + optU(s.AMin),
 		"amax=" + optU(s.AMax),
 		"auniq=" + optB(s.AUniq),
+		"asf=" + optS(s.ASF),
 		"r=" + b01(s.R),
 		"fmt=" + orTilde(s.Fmt),
 		"min=" + optI(s.Min),
 		"max=" + optI(s.Max),
 		"emin=" + optB(s.EMin),
 		"emax=" + optB(s.EMax),
+		"dmin=" + optS(s.DMin),
+		"dmax=" + optS(s.DMax),
 		"minl=" + optU(s.MinL),
 		"maxl=" + optU(s.MaxL),
 		"pat=" + optS(s.Pat),
@@ -346,6 +351,15 @@ func DecodeSpec(toks []string) (*Spec, error) {
 	}
 	if s.EMax, ok = bl("emax"); !ok {
 		return nil, fail("emax")
+	}
+	if s.DMin, ok = str("dmin"); !ok {
+		return nil, fail("dmin")
+	}
+	if s.DMax, ok = str("dmax"); !ok {
+		return nil, fail("dmax")
+	}
+	if s.ASF, ok = str("asf"); !ok {
+		return nil, fail("asf")
 	}
 	if s.MinL, ok = u64("minl"); !ok {
 		return nil, fail("minl")
@@ -500,6 +514,9 @@ func (s *Spec) FieldText() []string {
 		if s.AR && !any {
 			body = append(body, "    rules {", "    }")
 		}
+		if s.ASF != nil {
+			attr("ext.singleForm", j5sString(*s.ASF))
+		}
 	}
 	anyRule := false
 	rule := func(k, v string) { attr(pre+"rules."+k, v); anyRule = true }
@@ -541,6 +558,19 @@ func (s *Spec) FieldText() []string {
 		if s.Const != nil {
 			rule("const", strconv.FormatBool(*s.Const))
 		}
+	case "date", "dec":
+		if s.DMin != nil {
+			rule("minimum", j5sString(*s.DMin))
+		}
+		if s.DMax != nil {
+			rule("maximum", j5sString(*s.DMax))
+		}
+		if s.EMin != nil {
+			rule("exclusiveMinimum", strconv.FormatBool(*s.EMin))
+		}
+		if s.EMax != nil {
+			rule("exclusiveMaximum", strconv.FormatBool(*s.EMax))
+		}
 	case "enum":
 		if len(s.In) > 0 {
 			rule("in", j5sList(s.In))
@@ -568,7 +598,7 @@ func (s *Spec) FieldText() []string {
 	}
 	if s.R && !anyRule {
 		switch s.Kind {
-		case "str", "bytes", "int", "bool", "enum", "obj", "oneof", "ts":
+		case "str", "bytes", "int", "bool", "enum", "obj", "oneof", "ts", "date", "dec":
 			body = append(body, "    "+pre+"rules {", "    }")
 		}
 	}
